@@ -180,6 +180,34 @@ def _model_fracpow_angle(opzoo, tree, W, M, tol):
     return False
 
 
+def _model_sum_hash_collision(opzoo, tree, W, M, tol):
+    """True when M equals the reference in which, below a simplify node, a sum/product term that differs from an earlier term of
+    the same gate/wires only by angle shifts of multiples of 2pi is replaced by that earlier term (grouping by a hash that
+    reduces the angles modulo 2pi)."""
+    import copy
+    import math
+    t2 = copy.deepcopy(tree)
+    changed = [False]
+
+    def rec(t, under):
+        if t["op"] in ("sum", "add", "prod", "matmul") and under:
+            leaves = [x for x in t["args"] if x["op"] == "leaf" and x.get("params")]
+            for i, x in enumerate(leaves):
+                for y in leaves[:i]:
+                    if y["name"] == x["name"] and y["wires"] == x["wires"] and len(x["params"]) == len(y["params"]) and x["params"] != y["params"] \
+                            and all(abs(((p - q) / (2 * math.pi)) - round((p - q) / (2 * math.pi))) < 1e-9 for p, q in zip(x["params"], y["params"])):
+                        x["params"] = list(y["params"])
+                        changed[0] = True
+                        break
+        for a in (t.get("args") or ([t["arg"]] if "arg" in t else [])):
+            rec(a, under or t["op"] == "simplify")
+    rec(t2, False)
+    if not changed[0]:
+        return False
+    R2 = opzoo.expr_matrix(t2, W)
+    return R2.shape == M.shape and bool(np.max(np.abs(M - R2)) < tol)
+
+
 def _model_prod_group_order(qp, sv, op, child_ref, W, M, tol):
     """Model of the Prod.matrix defect: operands are grouped by overlapping wires, the groups' matrices are Kronecker-
     multiplied in group order, and the result is labelled with op.wires although it lives on the concatenated group wires.
@@ -236,7 +264,7 @@ def _forced_tree(rng, w, num):
 
     def cv(n):
         return [int(x) for x in rng.integers(0, 2, size=n)]
-    r = int(rng.integers(14))
+    r = int(rng.integers(15))
     if r == 0:  # ctrl of a basic gate: dispatch to specialised classes (CNOT, CY, CZ, CH, CRX…, Toffoli, MultiControlledX)
         nc = int(rng.integers(1, 4))
         vals = cv(nc) if rng.random() < 0.6 else [1] * nc
@@ -306,8 +334,19 @@ def _forced_tree(rng, w, num):
         return {"op": "map_wires", "map": [[w[i], perm[i]] for i in range(4)], "arg": inner}
     if r == 12:  # s_prod of s_prod, scalars 0/1/-1/complex, simplify
         c1 = [[1.0, 0.0], [-1.0, 0.0], [0.0, 1.0], [0.0, 0.0], [float(rng.uniform(-2, 2)), float(rng.uniform(-2, 2))]][int(rng.integers(5))]
-        t = {"op": "s_prod", "lazy": bool(rng.integers(2)), "c": c1, "arg": {"op": "s_prod", "lazy": True, "c": [float(rng.uniform(-2, 2)), 0.0], "arg": g2(w[:2])}}
+        t = {"op": "s_prod", "lazy": bool(rng.integers(2)), "c": c1, "arg": {"op": "s_prod", "lazy": True, "c": [float(rng.uniform(-2, 2)), float(rng.uniform(-2, 2)) if rng.random() < 0.5 else 0.0], "arg": g2(w[:2])}}
         return {"op": "simplify", "arg": t} if rng.random() < 0.5 else t
+    if r == 14:  # sums / products whose terms differ by an angle shift of 2πk (equal hashes on this code base), then simplify
+        nm, npar = [("RX", 1), ("RY", 1), ("RZ", 1), ("Rot", 3), ("U2", 2), ("U3", 3), ("PhaseShift", 1), ("U1", 1), ("CRX", 1), ("CRot", 3), ("IsingXX", 1)][int(rng.integers(11))]
+        ps = [a() for _ in range(npar)]
+        k = [1, -1, 2][int(rng.integers(3))]
+        ps2 = list(ps)
+        ps2[int(rng.integers(npar))] += 2 * np.pi * k
+        ws = w[:2] if nm in ("CRX", "CRot", "IsingXX") else [w[0]]
+        terms = [_L(nm, ws, ps), _L(nm, ws, ps2)]
+        if rng.random() < 0.5:
+            terms.append(g1(w[0]))
+        return {"op": "simplify", "arg": {"op": ["sum", "sum", "prod"][int(rng.integers(3))], "args": terms}}
     # 13: fractional powers of rotations with small angles (eigenphases inside (−π, π)) and their simplification
     th = float(rng.uniform(-3.0, 3.0))
     base = _L(["RX", "RY", "RZ", "PhaseShift", "IsingXX", "IsingZZ", "CRX", "CRZ", "ControlledPhaseShift", "SingleExcitation"][int(rng.integers(10))], w[:2], [th])
@@ -485,6 +524,11 @@ def _classify(qp, opzoo, sv, tree, op, W, M, R, tol, children):
     try:
         if _model_dropped_globalphase(opzoo, tree, W, M, tol):
             return "simplify:prod-drops-globalphase"
+    except Exception:  # noqa: BLE001
+        pass
+    try:
+        if _model_sum_hash_collision(opzoo, tree, W, M, tol):
+            return "simplify:groups-terms-by-hash-mod-2pi"
     except Exception:  # noqa: BLE001
         pass
     try:
